@@ -57,6 +57,13 @@ Lemma enc_string_leaf x key :
   enc o (VStr x) key =
   Ok (match esc o x with [] => close_or_empty o key [] | e => [IOpen key []; IText e; IClose key] end).
 Proof. cbn [enc]. destruct (esc o x); reflexivity. Qed.
+Lemma no_double_escape_l x key :
+  enc o (VStr x) key =
+    Ok (match esc o x with [] => close_or_empty o key [] | e => [IOpen key []; IText e; IClose key] end) /\
+  attr_text o (VStr x) = Some (esc o x) /\
+  text_text o (VStr x) = esc o x /\
+  esc o x = (if xmlEscapeChars o then escape_chars x else x).
+Proof. split; [apply enc_string_leaf|]. repeat split. Qed.
 Lemma attr_string_leaf x : attr_text o (VStr x) = Some (esc o x).
 Proof. reflexivity. Qed.
 Lemma text_string_leaf x : text_text o (VStr x) = esc o x.
